@@ -151,6 +151,19 @@ class Monitor:
         os.write(self.w, (json.dumps(dict(budget=budget, label=label)) + "\n").encode())
 
 
+def move_in_place(col, G, moved_spec):
+    """apply the rigid motion G (4x4) to an EXISTING collider the way an application does: take the pose array the
+    collider exposes, overwrite it IN PLACE with G @ pose and hand the same array object to update_pose().  Colliders
+    without update_pose (vertex hulls) are rebuilt from the moved specification."""
+    try:
+        P = col.collider2origin()
+        P[:] = G.dot(P)
+        col.update_pose(P)
+        return col
+    except NotImplementedError:
+        return NW.build(moved_spec)
+
+
 WARM_SPECS = [
     dict(kind="sphere", center=[0.0, 0.0, 0.0], radius=1.0),
     dict(kind="box", pose=np.eye(4).tolist(), size=[1.0, 1.0, 1.0]),
@@ -203,6 +216,20 @@ def main():
         except BaseException as e:  # noqa
             res.append([dict(fn=o["fn"], exc="BUILD-" + type(e).__name__, exc_msg=str(e)[:200]) for o in case["ops"]])
             continue
+        if case.get("update") is not None:
+            # one query first (fills whatever the colliders cache), then move both colliders through update_pose
+            try:
+                run_op(dict(fn="gjk_jolt", timeout=0), c1, c2)
+                run_op(dict(fn="isect_mpr", timeout=0), c1, c2)
+                G = np.eye(4)
+                G[:3, :3] = np.array(case["update"]["R"], dtype=float)
+                G[:3, 3] = np.array(case["update"]["t"], dtype=float)
+                same = c2 is c1
+                c1 = move_in_place(c1, G, case["moved"][0])
+                c2 = c1 if same else move_in_place(c2, G, case["moved"][1])
+            except BaseException as e:  # noqa
+                res.append([dict(fn=o["fn"], exc="UPDATE-" + type(e).__name__, exc_msg=str(e)[:200]) for o in case["ops"]])
+                continue
         rr = []
         for op in case["ops"]:
             mon.beat(float(op.get("timeout", 20)) + 100.0, dict(case=ci, op=op))
